@@ -47,6 +47,7 @@ class PartialFireflyPoolEncoder(json.JSONEncoder):
           '_last_id': o._last_id,  # pylint: disable=protected-access
           '_max_fly_id': o._max_fly_id,  # pylint: disable=protected-access
           '_pool': o._pool,  # pylint: disable=protected-access
+          '_infeasible_count': o._infeasible_count,  # pylint: disable=protected-access
       }
     elif isinstance(o, Firefly):
       return {
@@ -116,6 +117,9 @@ class FireflyPoolDecoder:
     restored_firefly_pool._pool = restored_pool
     restored_firefly_pool._last_id = int(obj_dict['_last_id'])
     restored_firefly_pool._max_fly_id = int(obj_dict['_max_fly_id'])
+    restored_firefly_pool._infeasible_count = int(
+        obj_dict.get('_infeasible_count', 0)
+    )
     return restored_firefly_pool
 
 
